@@ -405,7 +405,15 @@ func setStr(m map[int]bool) string {
 }
 
 func checkRequest(e *env, rq *request) *result {
-	o := e.do(rq)
+	return judge(e.reg, rq, e.do(rq))
+}
+
+// judge compares what was observed for one request with the reference; reg maps
+// the registered full paths to their method kind. It is a function of the
+// request and the observation only, so it applies unchanged to a request that
+// was served alone, after other requests, or while other requests were in
+// progress on the same server.
+func judge(reg map[string]string, rq *request, o *observation) *result {
 	res := &result{Obs: o}
 	if o.Panic != "" {
 		res.Class = "panic"
@@ -415,7 +423,7 @@ func checkRequest(e *env, rq *request) *result {
 	if o.Cnt.handler > 1 || o.Cnt.unaryInt > 1 || o.Cnt.streamInt > 1 {
 		res.add("ran-more-than-once", fmt.Sprintf("handler=%d", o.Cnt.handler), "application code ran more than once for one request: "+o.short())
 	}
-	kind, registered := e.reg[rq.Path]
+	kind, registered := reg[rq.Path]
 	if !registered {
 		res.Class = "unknown-path"
 		redirect := o.Status >= 300 && o.Status < 400 && o.Header.Get("Location") != "" && !canonicalPath(rq.Path)
@@ -551,6 +559,9 @@ func checkUnary(res *result, o *observation, codec string, body []byte) {
 	}
 	if !proto.Equal(got, want) {
 		res.add("unary-ok-body-different", "", fmt.Sprintf("response message is %v, handler returned %v: %s", got, want, o.short()))
+	}
+	if cl := o.Header.Get("Content-Length"); cl != "" && cl != strconv.Itoa(len(o.Body)) {
+		res.add("unary-ok-content-length", "", fmt.Sprintf("Content-Length %s announced but the body has %d bytes: %s", cl, len(o.Body), o.short()))
 	}
 	if b, _ := refContentType(o.Header.Get("Content-Type"), true); b != codec {
 		res.add("unary-ok-content-type", "", fmt.Sprintf("response content type does not name the %s codec: %s", codecName(codec), o.short()))
